@@ -17,7 +17,8 @@ TRUSTED = B.TRUSTED + ["real preemption points, dict atomicity under the GIL and
                        "the model's schedule is a seeded permutation of atomic actions, unrelated to the real schedule"]
 ASSUMPTIONS = ["each modelled action is atomic (dict get/set under the GIL)"]
 EXPLANATION = ("interleaving model (Conc/Conc.v): queries as programs of atomic actions on the shared state of Purity.v; "
-               "theorems in Props/C20.v: every schedule yields the history-free answers, hence the serial results (two postings premises explicit).")
+               "theorems in Props/C20.v: every schedule yields the history-free answers, hence the serial results - generic form with two postings premises, and premise-free for every indexed corpus "
+               "(C20_every_interleaving, C20_schedule_eq_serial). edismax and slop run on the real threads only.")
 
 
 def gen(rng, tier):
